@@ -133,23 +133,37 @@ def main(argv):
             json.dump(out, f, indent=1, sort_keys=True)
         return rc
     if argv[0] == "all":
+        from concurrent.futures import ThreadPoolExecutor
         all_props = "--props-all" in argv
+        jobs = 3
+        for a_ in argv:
+            if a_.startswith("--jobs="):
+                jobs = int(a_.split("=")[1])
         report = {}
         root = os.path.join(HERE, "seeded")
         allids = sorted(p[:-3] for p in os.listdir(os.path.join(HERE, "vlib", "props")) if p.startswith("C") and p.endswith(".py"))
+        work = []
         for pid in sorted(os.listdir(root)):
             for k in sorted(os.listdir(os.path.join(root, pid))):
                 mdir = os.path.join(root, pid, k)
-                if not os.path.exists(os.path.join(mdir, "patch.diff")):
-                    continue
-                ids = allids if all_props else [pid]
-                res = run_checks(mdir, ids)
-                report[f"{pid}/{k}"] = res
-                print(f"{pid}/{k}: " + ", ".join(f"{i}={'KILLED' if v['killed'] else 'survived' if v['exit'] == 0 else 'exit' + str(v['exit'])}"
-                                                for i, v in res.items()), flush=True)
+                if os.path.exists(os.path.join(mdir, "patch.diff")):
+                    work.append((pid, k, mdir))
+
+        def one(item):
+            pid, k, mdir = item
+            res = run_checks(mdir, allids if all_props else [pid])
+            print(f"{pid}/{k}: " + ", ".join(f"{i}={'KILLED' if v['killed'] else 'survived' if v['exit'] == 0 else 'exit' + str(v['exit'])}"
+                                            for i, v in res.items()), flush=True)
+            return f"{pid}/{k}", res
+        with ThreadPoolExecutor(jobs) as ex:
+            for key, res in ex.map(one, work):
+                report[key] = res
         os.makedirs(os.path.join(HERE, "sensitivity"), exist_ok=True)
+        killed = sum(1 for r in report.values() if any(v["killed"] for v in r.values()))
         with open(os.path.join(HERE, "sensitivity", "report.json"), "w") as f:
-            json.dump(report, f, indent=1, sort_keys=True)
+            json.dump({"summary": {"seeded_changes": len(report), "killed_by_own_property_check": killed},
+                       "runs": report}, f, indent=1, sort_keys=True)
+        print(f"{killed}/{len(report)} killed")
         return 0
     print(__doc__)
     return 2
